@@ -148,7 +148,45 @@ Lemma ub_is_product U B su sb dmu dmb :
   ub_matrix_from_u_and_b O (tmat U su dmu) (tmat B sb dmb) = tmat (mmul U B) (su * sb) (dadd dmu dmb).
 Proof using. reflexivity. Qed.
 
-(* stored-number form: the returned vector is (R UB)^-1 q / 2 pi, unit = unit(Q) / (unit(R) unit(UB)) *)
+(* unit dimensions are lists of the 9 base-unit exponents *)
+Lemma dims9 (d : dims) : length d = 9%nat ->
+  exists a b c e f g i j k, d = (a :: b :: c :: e :: f :: g :: i :: j :: k :: nil)%list.
+Proof using.
+  intros L. do 9 (destruct d as [|? d]; [discriminate L|]). destruct d; [|discriminate L]. repeat eexists.
+Qed.
+Lemma hkl_unit_dims dR dU dq : length dR = 9%nat -> length dU = 9%nat -> length dq = 9%nat ->
+  dsub (dadd (dsub dzero (dadd dR dU)) dq) (dadd dzero dzero) = dsub dq (dadd dR dU).
+Proof using.
+  intros LR LU Lq.
+  destruct (dims9 dR LR) as (r1 & r2 & r3 & r4 & r5 & r6 & r7 & r8 & r9 & ->).
+  destruct (dims9 dU LU) as (u1 & u2 & u3 & u4 & u5 & u6 & u7 & u8 & u9 & ->).
+  destruct (dims9 dq Lq) as (q1 & q2 & q3 & q4 & q5 & q6 & q7 & q8 & q9 & ->).
+  cbv [dadd dsub dmap2 dzero]. repeat (apply (f_equal2 (@cons Z)); [ring|]). reflexivity.
+Qed.
+
+(* stored-number form, ANY units: the returned NUMBERS are (R UB)^-1 q / 2 pi of the operands' numbers whatever the
+   units; the unit is unit(Q) / (unit(R) unit(UB)) - multiplier and dimension.  Hence the same numbers given again
+   with another unit (UB dimensionless, 1/angstrom, 1/nm; Q in 1/angstrom, 1/nm) give the same numbers in the
+   correspondingly changed unit: the result is a function of the operands of THIS call *)
+Lemma hkl_raw_units Rm UBm qx qy qz sR sU sq dR dU dq :
+  sR > 0 -> sU > 0 -> mdet (mmul Rm UBm) <> 0 -> length dR = 9%nat -> length dU = 9%nat -> length dq = 9%nat ->
+  let H := hkl_spec Rm UBm (mkV qx qy qz) in
+  exists u, hkl_vec_from_Q_vec O (tv qx qy qz sq dq) (tmat UBm sU dU) (tmat Rm sR dR)
+            = VVar O (EVec O (vx H) (vy H) (vz H)) u DVec3
+            /\ ud O u = dsub dq (dadd dR dU) /\ us O u = sq / (sR * sU).
+Proof using.
+  intros HsR HsU Hd LR LU Lq H. pose proof PI_RGT_0.
+  destruct Rm, UBm; unfold mdet, mmul in Hd; simpl in Hd.
+  eexists. split.
+  { cbv -[Rplus Rminus Rmult Rdiv Rinv Ropp IZR sqrt sin cos atan2 atan asin exp Rabs PI
+          Rleb Rltb Reqb Rle_dec Rlt_dec Req_EM_T Rrint Int_part up dadd dsub dzero].
+    unfold H, hkl_spec, minv, madj, mdet, mmul, mapp, vsc; simpl.
+    f_equal. f_equal; field; repeat split;
+      first [lra | exact Hd | (intro E; apply Hd; etransitivity; [|exact E]; ring)]. }
+  split; [apply hkl_unit_dims; assumption | Rgoal; field; lra].
+Qed.
+
+(* the usual units: Q and UB in inverse lengths, R dimensionless *)
 Lemma hkl_raw Rm UBm qx qy qz sR sU sq :
   sR > 0 -> sU > 0 -> mdet (mmul Rm UBm) <> 0 ->
   let H := hkl_spec Rm UBm (mkV qx qy qz) in
@@ -156,17 +194,33 @@ Lemma hkl_raw Rm UBm qx qy qz sR sU sq :
             = VVar O (EVec O (vx H) (vy H) (vz H)) u DVec3
             /\ ud O u = dzero /\ us O u = sq / (sR * sU).
 Proof using.
-  intros HsR HsU Hd H. pose proof PI_RGT_0.
-  destruct Rm, UBm; unfold mdet, mmul in Hd; simpl in Hd.
-  eexists. split.
-  { sem_cbv. unfold H, hkl_spec, minv, madj, mdet, mmul, mapp, vsc; simpl.
-    f_equal. f_equal; field; repeat split;
-      first [lra | exact Hd | (intro E; apply Hd; etransitivity; [|exact E]; ring)]. }
-  split; [reflexivity | Rgoal; field; lra].
+  intros HsR HsU Hd.
+  exact (hkl_raw_units Rm UBm qx qy qz sR sU sq dzero d_invm d_invm HsR HsU Hd eq_refl eq_refl eq_refl).
 Qed.
 
-(* hkl_inverse: 2 pi R UB hkl = Q for EVERY R and UB with det(R UB) <> 0, in physical terms
-   (R = sR Rm dimensionless, UB = sU UBm and Q = sq q in inverse lengths, any multipliers) *)
+(* hkl_inverse: 2 pi R UB hkl = Q for EVERY R and UB with det(R UB) <> 0, in physical terms, for ANY units of the
+   three operands (multipliers sR, sU, sq; dimensions dR, dU, dq): the returned vector carries the unit
+   unit(Q) / (unit(R) unit(UB)), so that the equation holds in value AND unit *)
+Lemma hkl_inverse_units Rm UBm qx qy qz sR sU sq dR dU dq :
+  sR > 0 -> sU > 0 -> sq > 0 -> mdet (mmul Rm UBm) <> 0 -> length dR = 9%nat -> length dU = 9%nat -> length dq = 9%nat ->
+  let Rp := msc sR Rm in let UBp := msc sU UBm in let Qp := phys qx qy qz sq in
+  exists H, is_vec h mn (hkl_vec_from_Q_vec O (tv qx qy qz sq dq) (tmat UBm sU dU) (tmat Rm sR dR))
+                   (vx H) (vy H) (vz H) (sq / (sR * sU)) (dsub dq (dadd dR dU))
+            /\ vsc (2 * PI) (mapp (mmul Rp UBp) H) = Qp
+            /\ H = hkl_spec Rp UBp Qp.
+Proof using.
+  intros HsR HsU Hsq Hd LR LU Lq Rp UBp Qp.
+  exists (hkl_spec Rp UBp Qp).
+  assert (Hd' : mdet (mmul Rp UBp) <> 0) by (apply mdet_scaled; try assumption; lra).
+  split; [|split; [apply hkl_inverse_spec, Hd' | reflexivity]].
+  destruct (hkl_raw_units Rm UBm qx qy qz sR sU sq dR dU dq HsR HsU Hd LR LU Lq) as (u & -> & Hud & Hus).
+  unfold Qp, Rp, UBp. rewrite phys_vsc, hkl_scale by (try assumption; lra).
+  unfold is_vec. do 4 eexists. split; [reflexivity|]. split; [exact Hud|]. split.
+  - exact Hus.
+  - simpl; repeat split; ring.
+Qed.
+
+(* the same with Q and UB in inverse lengths and R dimensionless: hkl is dimensionless *)
 Lemma hkl_inverse Rm UBm qx qy qz sR sU sq :
   sR > 0 -> sU > 0 -> sq > 0 -> mdet (mmul Rm UBm) <> 0 ->
   let Rp := msc sR Rm in let UBp := msc sU UBm in let Qp := phys qx qy qz sq in
@@ -175,15 +229,8 @@ Lemma hkl_inverse Rm UBm qx qy qz sR sU sq :
             /\ vsc (2 * PI) (mapp (mmul Rp UBp) H) = Qp
             /\ H = hkl_spec Rp UBp Qp.
 Proof using.
-  intros HsR HsU Hsq Hd Rp UBp Qp.
-  exists (hkl_spec Rp UBp Qp).
-  assert (Hd' : mdet (mmul Rp UBp) <> 0) by (apply mdet_scaled; try assumption; lra).
-  split; [|split; [apply hkl_inverse_spec, Hd' | reflexivity]].
-  destruct (hkl_raw Rm UBm qx qy qz sR sU sq HsR HsU Hd) as (u & -> & Hud & Hus).
-  unfold Qp, Rp, UBp. rewrite phys_vsc, hkl_scale by (try assumption; lra).
-  unfold is_vec. do 4 eexists. split; [reflexivity|]. split; [exact Hud|]. split.
-  - exact Hus.
-  - simpl; repeat split; ring.
+  intros HsR HsU Hsq Hd.
+  exact (hkl_inverse_units Rm UBm qx qy qz sR sU sq dzero d_invm d_invm HsR HsU Hsq Hd eq_refl eq_refl eq_refl).
 Qed.
 
 (* ---------------------------------------------------------------- split / join is lossless (exact) *)
